@@ -8,6 +8,7 @@ import MW.Spec.Chain
 import MW.Lemmas.ImportPlan
 import MW.Lemmas.LedgerStatus
 import MW.Lemmas.ImportLive
+import MW.Lemmas.ImportExact
 namespace MW.Props.C07
 open MW MW.Model.Ledger MW.Model.Import MW.Lemmas.ImportPlan
 
@@ -520,6 +521,116 @@ def import_exact_full : Prop :=
       (∀ h b, sys.node.chain[h]? = some b → AMap.get sys.s.sync h = some b.id)) →
     walletBalance sys.s w minConf = some (Spec.Chain.balance p own sys.node.chain w minConf)
 
+-- ------------------------------------------------------------------ stage 1: the chain stands still
+
+open MW.Lemmas.ImportExact in
+/-- `runBatches` is the loop `runImport` of the lemma library (plus the list of applied items) -/
+theorem runBatches_runImport (batch : Nat) (c : Ctx) (w : Wid) (n : Nat) (s : Store) (v : Vol)
+    (s' : Store) (v' : Vol) (items : List Item) (h : runBatches batch c w n s v = some (s', v', items)) :
+    runImport batch c w n s v = some (s', v') := by
+  induction n generalizing s v items with
+  | zero => simp [runBatches] at h
+  | succ n ih =>
+    unfold runBatches at h
+    unfold runImport
+    cases hstep : importStep batch c w s v with
+    | error e => simp [hstep] at h
+    | ok r =>
+      obtain ⟨s1, v1, fin⟩ := r
+      obtain ⟨hd, hok⟩ := importStep_ok batch c w s v s1 v1 fin hstep
+      simp only [hstep, hok.head] at h ⊢
+      by_cases hf : fin = true
+      · simp only [hf, if_true, Option.some.injEq, Prod.mk.injEq] at h ⊢
+        exact ⟨h.1, h.2.1⟩
+      · simp only [hf, Bool.false_eq_true, if_false, Option.map_eq_some_iff] at h ⊢
+        obtain ⟨r, hr, hreq⟩ := h
+        obtain ⟨s2, v2, items2⟩ := r
+        simp only [Prod.mk.injEq] at hreq
+        obtain ⟨rfl, rfl, _⟩ := hreq
+        exact ih s1 v1 items2 hr
+
+open MW.Lemmas.ImportExact MW.Lemmas.Ledger in
+/-- **import_exact_static_partial** (stage 1 of `import_exact_full`; PARTIAL in one respect only: the restored
+    keystore is the instance's only one — `AllReady c.own [w]`, `c.wallets = [w]` — the classic "restore from seed
+    onto a fresh installation"; with other, ready, wallets in the instance: `import_exact_static_full`).
+    The node's chain stands still, the follower is caught up (`Scan`: the store holds the books of the chain up to
+    the cursor; `scan_fresh` gives it at the import moment).  For ANY positive batch size and ANY number of batches:
+    when the rescan reports done, the store satisfies C01's invariant `Inv` for the node's whole chain — credits,
+    unspent index, debits, deposit records, tx records and block records ARE the books `bookOf` of the chain, the
+    balance is the ledger total — the wallet is ready, the follower's tip was not moved and the unspent index has
+    distinct keys.  Hence (C01 `balance_correct` / `coins_perm`): `import_observed_static`. -/
+theorem import_exact_static_partial (batch : Nat) (hb : batch > 0) (c : Ctx) (w : Wid)
+    (hAR : AllReady c.own [w]) (hC : ChainOK c) (hws : c.wallets = [w])
+    (n : Nat) (s : Store) (v : Vol) (s' : Store) (v' : Vol) (items : List Item) (ws : WStatus) (k : Nat)
+    (hS : Scan c w s k) (hst : AMap.get s.status w = some ws) (hk : ws.synced = some k)
+    (hbest : v.best.height + 1 = c.node.chain.length) (hle : k ≤ v.best.height)
+    (hnb : v.best.height + batch < 2 ^ 64)
+    (h : runBatches batch c w n s v = some (s', v', items)) :
+    Inv c s' c.node.chain ∧ AMap.get s'.status w = some { ws with synced := none } ∧ v'.best = v.best ∧
+      KeysNodup s'.unspent := by
+  obtain ⟨a, b, d⟩ := run_scan hb hAR hC (by rw [hws]; simp) n s v k ws s' v' hS hst hk hbest hle hnb
+    (runBatches_runImport batch c w n s v s' v' items h)
+  exact ⟨scan_tip_inv hws a hbest, b, d, a.wf⟩
+
+open MW.Lemmas.ImportExact MW.Lemmas.Ledger in
+/-- … and the rescan does report done: no batch fails, `best − cursor + 1` batches always suffice -/
+theorem import_static_terminates (batch : Nat) (hb : batch > 0) (c : Ctx) (w : Wid)
+    (hAR : AllReady c.own [w]) (hC : ChainOK c) (hw : c.wallets.contains w = true)
+    (s : Store) (v : Vol) (ws : WStatus) (k : Nat)
+    (hS : Scan c w s k) (hst : AMap.get s.status w = some ws) (hk : ws.synced = some k)
+    (hbest : v.best.height + 1 = c.node.chain.length) (hle : k ≤ v.best.height)
+    (hnb : v.best.height + batch < 2 ^ 64) :
+    (runImport batch c w (v.best.height - k + 1) s v).isSome = true :=
+  run_total hb hAR hC hw _ s v k ws hS hst hk hbest hle hnb (by omega)
+
+open MW.Lemmas.ImportExact MW.Lemmas.Ledger in
+/-- **import_observed_static.** What the restored wallet then reports IS what the chain specification says: the
+    unspent outputs (tx, index, amount, height, maturity, confirmations, address) are — as a multiset — the outputs
+    `Spec.Chain.utxosOf` of the node's chain, and WalletBalance is `Spec.Chain.balance` (the 32-bit size bounds are
+    C01's). -/
+theorem import_observed_static (batch : Nat) (hb : batch > 0) (c : Ctx) (w : Wid)
+    (hAR : AllReady c.own [w]) (hC : ChainOK c) (hws : c.wallets = [w])
+    (n : Nat) (s : Store) (v : Vol) (s' : Store) (v' : Vol) (items : List Item) (k : Nat)
+    (hS : Scan c w s k) (hst : AMap.get s.status w = some ⟨some k, false⟩)
+    (hbest : v.best.height + 1 = c.node.chain.length) (hle : k ≤ v.best.height)
+    (hnb : v.best.height + batch < 2 ^ 64)
+    (hlen : c.node.chain.length < 2 ^ 32) (hcb : c.p.cbMaturity < 2 ^ 32)
+    (hstk : ∀ x ∈ Spec.Chain.ledgerOf c.own c.node.chain, ∀ f, x.cls = .stk f → f + 1 < 2 ^ 32)
+    (h : runBatches batch c w n s v = some (s', v', items)) (mc : Nat) :
+    ((coinsOf s' w).map (Spec.Chain.obsM s'.syncedTo)).Perm
+        ((Spec.Chain.utxosOf c.own c.node.chain w).map (Spec.Chain.obsS c.p (c.node.chain.length - 1))) ∧
+      walletBalance s' w mc = some (Spec.Chain.balance c.p c.own c.node.chain w mc) := by
+  obtain ⟨hI, hst', _, hwf⟩ := import_exact_static_partial batch hb c w hAR hC hws n s v s' v' items _ k hS hst rfl
+    hbest hle hnb h
+  have H : ObsHyp c s' c.node.chain := ⟨hI, hwf, hC.valid, hC.heights, hlen, hcb, hstk⟩
+  refine ⟨coins_perm H w, balance_correct H ?_ mc⟩
+  unfold readyWallets
+  rw [hws]
+  simp [hst']
+
+/-- FULL statement of stage 1, kept type-checked; NOT PROVED.  The instance holds other wallets, all ready; their
+    books for the whole chain are in the store (`Inv` for the keystore table without `w`'s addresses), `w` has just
+    been imported (cursor 0, nothing recorded, genesis without transactions), the chain stands still: when the rescan
+    reports done the store satisfies `Inv` for the FULL keystore table.  What `import_exact_static_partial` lacks for
+    this: the invariant pair "books of the ready wallets for the chain" + "books of `w` up to the cursor" (a joined
+    book: credits / debits / deposit records are disjoint by owner, tx records coincide where both exist, block
+    records merge by block position — `insertByPos`), the per-transaction refinement against that joined book
+    (`spendOne_refines` / `creditOne_refines` apply to it; the fold lemmas `spendFold_refines` /
+    `createFold_refines` assume `AllReady` and need copies that only ask readiness of the coins actually hit), and
+    "joined books of the two halves of the table = books of the table" (from `CredInv` / `DebitInv` / `GameInv` /
+    `bookOf_txrecs_iff`).  RECORDS (`filterImp_spec`) and the schedule are done and do not depend on the restriction
+    except through `mine_eq` (the filter looks at `w`'s addresses only). -/
+def import_exact_static_full : Prop :=
+  ∀ (batch : Nat) (c : Ctx) (w : Wid) (n : Nat) (s : Store) (v : Vol) (s' : Store) (v' : Vol) (items : List Item),
+    batch > 0 → Lemmas.ImportExact.ChainOK c → Lemmas.Ledger.KeysNodup c.own → w ∈ c.wallets →
+    Lemmas.Ledger.AllReady (c.own.filter (fun e => e.2.1 ≠ w)) (readyWallets s c.wallets) →
+    Lemmas.Ledger.Inv { c with own := c.own.filter (fun e => e.2.1 ≠ w) } s c.node.chain →
+    (∃ G, c.node.chain[0]? = some G ∧ G.txs = []) →
+    AMap.get s.status w = some ⟨some 0, false⟩ → AMap.get s.balance w = some 0 →
+    v.best.height + 1 = c.node.chain.length → v.best.height + batch < 2 ^ 64 →
+    runBatches batch c w n s v = some (s', v', items) →
+    Lemmas.Ledger.Inv c s' c.node.chain
+
 /-- the regenerated constants have the shape the theorems assume (positive batch size and expiry window, the done
     sentinel is the top of uint64) -/
 theorem gen_tie : Gen.Handler.importBatch > 0 ∧ Gen.Handler.maxMemPoolExpire > 0 ∧
@@ -575,5 +686,58 @@ example : Linked ctx.node.chain := by
     not ready — but the function does not guard against it: a done wallet on a chain longer than 999 blocks would be
     flipped back to "importing@999") -/
 example : batchStop 1000 (cursorU64 ⟨none, false⟩) 5000 = 999 ∧ addU64 (cursorU64 ⟨none, false⟩) 1 = 0 := by decide
+
+-- stage 1: every hypothesis of `import_exact_static_partial` / `import_observed_static` holds on the chain of `Ex`
+open MW.Lemmas.ImportExact MW.Lemmas.Ledger in
+theorem ex_allReady : AllReady ctx.own ["W1"] := by
+  intro a w' ch h
+  rw [show ctx.own = [("A1", ("W1", false))] from rfl, AMap.get_cons] at h
+  split at h
+  · cases h; rfl
+  · cases h
+
+open MW.Lemmas.ImportExact MW.Lemmas.Ledger in
+theorem ex_chainOK : ChainOK ctx := by
+  refine ⟨by decide, ?_⟩
+  intro i b hb
+  match i with
+  | 0 => simp [ctx] at hb; subst hb; rfl
+  | 1 => simp [ctx] at hb; subst hb; rfl
+  | 2 => simp [ctx] at hb; subst hb; rfl
+  | 3 => simp [ctx] at hb; subst hb; rfl
+  | (n + 4) => simp [ctx] at hb
+
+open MW.Lemmas.ImportExact MW.Lemmas.Ledger in
+/-- the import moment of `Ex` satisfies the scan invariant at cursor 0 (`scan_fresh`) -/
+theorem ex_scan : Scan ctx "W1" st 0 := by
+  refine scan_fresh (G := g) rfl rfl rfl rfl rfl rfl rfl rfl rfl ?_ rfl
+  intro h
+  match h with
+  | 0 => rfl
+  | 1 => rfl
+  | 2 => rfl
+  | 3 => rfl
+  | (n + 4) => simp [st, ctx, AMap.get, Spec.Books.syncOf]
+
+open MW.Lemmas.ImportExact MW.Lemmas.Ledger in
+/-- … so the three-batch rescan of `Ex` (batch size 1) ends in C01's invariant for the whole chain, and it does end -/
+example (s' : Store) (v' : Vol) (items : List Item) (h : runBatches 1 ctx "W1" 5 st vol = some (s', v', items)) :
+    Inv ctx s' ctx.node.chain :=
+  (import_exact_static_partial 1 (by decide) ctx "W1" ex_allReady ex_chainOK rfl 5 st vol s' v' items ⟨some 0, false⟩ 0
+    ex_scan rfl rfl rfl (by decide) (by decide) h).1
+example : (runBatches 1 ctx "W1" 5 st vol).isSome = true := by decide
+/-- an indexed transaction the filter finds irrelevant is skipped (fix D41): C1x carries an unsupported script
+    with W1's script hash, T3x spends it; the rescan records neither and still finishes -/
+example :
+    let c1x : Tx := ⟨"C1", true, [], [⟨"A1", 500, .std⟩, ⟨"A1", 7, .raw⟩]⟩
+    let t3x : Tx := ⟨"T3x", false, [⟨"C1", 1, 0⟩], [⟨"X1", 6, .std⟩]⟩
+    let b1x : Block := ⟨"B1", "G", 1, [c1x]⟩
+    let b2x : Block := ⟨"B2", "B1", 2, [c2, t3x]⟩
+    let cx : Ctx := { ctx with node := { chain := [g, b1x, b2x, b3], known := [] } }
+    ((plan cx.node ["A1"] 1 3).map (fun it => (it.tx.id, itemRelevant cx "W1" it)),
+     match importStep 1000 cx "W1" st vol with
+     | .ok (s', _, fin) => some (fin, walletBalance s' "W1" 1, s'.txrecs.map (·.1.1))
+     | .error _ => none) =
+    ([("C1", true), ("T3x", false)], some (true, some ⟨500, 500, 0, 0⟩, ["C1"])) := by decide
 
 end MW.Props.C07
